@@ -277,7 +277,7 @@ func (p *pool) runChunk(jobs []*Job) []*Result {
 		cmd.Dir = dir
 		cmd.Env = []string{
 			"HOME=" + root, "PATH=" + filepath.Join(root, "emptybin"), "TMPDIR=" + root,
-			"GODEBUG=asynctimerchan=0", "GOMAXPROCS=4", "GOTRACEBACK=all",
+			"GODEBUG=asynctimerchan=0", "GOMAXPROCS=" + gomaxprocs(), "GOTRACEBACK=all",
 			"VERIF_JOBS=" + filepath.Join(root, "jobs.jsonl"), "VERIF_OUT=" + filepath.Join(root, "out.jsonl"),
 		}
 		var stderr bytes.Buffer
@@ -375,6 +375,16 @@ func (p *pool) runChunk(jobs []*Job) []*Result {
 		jobs = rest
 	}
 	return results
+}
+
+// gomaxprocs for the workers: 1 makes klauspost/zstd encode and decode synchronously in the calling
+// goroutine (its worker pool is sized from GOMAXPROCS), which removes the only library goroutines
+// whose real-time progress could influence which trzsz goroutine is runnable at a quiescent point.
+func gomaxprocs() string {
+	if v := os.Getenv("VERIF_GOMAXPROCS"); v != "" {
+		return v
+	}
+	return "1"
 }
 
 const mountPoint = "/tmp/vsimroot"
@@ -1175,7 +1185,7 @@ func makeReplay(pl *pool, pd *propDef, r *Result, tier string, minimise bool) st
 	rep := map[string]any{
 		"property": pd.id, "tier": tier, "seed": base.Seed, "idx": base.Idx, "params": base.Params,
 		"kind": r.Kind, "sig": r.Sig, "class": r.Class, "msg": r.Msg, "detail": r.Detail,
-		"scenario": r.Scenario, "toolchain": "go1.26.8", "gomaxprocs": 4, "tree_hash": treeHash(),
+		"scenario": r.Scenario, "toolchain": "go1.26.8", "gomaxprocs": gomaxprocs(), "tree_hash": treeHash(),
 	}
 	if len(tape) > 0 {
 		rep["tape"] = tape
